@@ -107,6 +107,10 @@ def run(ctx, P):
             continue
         for j, (s, e) in enumerate(members):
             m = hx.indicator(names[j])
+            if not level.get("timeframe"):
+                # a member is registered under the name its configuration gives it standalone
+                natural = build_any(s, **e).name
+                ctx.require(f"member{j}-name==standalone-name" + lab, m.name == natural, f"{m.name!r} vs {natural!r}")
             # standalone twin: same effective configuration, same name, fed the same stream the same way
             src2 = clone(cs)
             twin = build_any(s, candles=src2[:pre], **{**level, **e, "fullname_override": m.name})
